@@ -1,7 +1,8 @@
 // C01 harness (task-pool part): replays every edge of the TaskPool.tla state graph on a REAL arena_slot (white box: spawn / get_task /
 // steal_task of arena->my_slots[1] inside a real task_arena(3,3)), one tracked access per step, comparing (head, tail, lock word) after
 // every step; records Spawn / Got events for validation against TraceTaskPool.
-//   h_taskpool <schedules> <trace-out> <owner-prog e.g. 1,2,-1,3,-1,-1> <nsteal>
+//   h_taskpool <schedules> <trace-out> <owner-prog e.g. 1,2,-1,3,-1,-1> <nsteal> [<iso of task 1,2,..> <iso of thief 1,2>]
+//   (TaskPoolIso.tla: owner op -(1+g) = get_task with isolation tag g; tasks carry isolation tags; thieves steal with a tag)
 #include "vh_tbb.h"
 #include "tbb/arena_slot.h"
 using namespace cosched;
@@ -15,14 +16,17 @@ int main(int argc, char** argv) {
     L("S1",K_LOAD,1);L("A1",K_LOAD,2);L("A2",K_LOAD,2);L("A3",K_CAS,2);L("S_h",K_LOAD,0);L("S_c1",K_STORE,0);L("S_c2",K_STORE,1);L("S_c3",K_LOAD,2);L("S_c4",K_STORE,2);
     L("S_tail",K_STORE,1);L("S_pub",K_LOAD,2);L("S_pub2",K_STORE,2);L("G0",K_LOAD,2);L("G0b",K_LOAD,1);L("G1",K_RMW,1);L("G2",K_LOAD,0);L("B1",K_LOAD,2);L("B2",K_LOAD,2);L("B3",K_CAS,2);
     L("G3",K_LOAD,0);L("G4",K_STORE,1);L("G5",K_STORE,0);L("G6",K_STORE,2);L("G7",K_LOAD,2);L("G8",K_STORE,2);
+    L("E1",K_STORE,0);L("E2",K_STORE,1);L("E3",K_STORE,2);L("E5",K_STORE,1);L("K7",K_STORE,0);
     L("L0",K_LOAD,2);L("L1",K_LOAD,2);L("L2",K_CAS,2);L("K1",K_LOAD,0);L("K2",K_RMW,0);L("K3",K_LOAD,1);L("K4",K_STORE,0);L("U1",K_STORE,2);
     std::vector<int> OP; for (auto& s : vh::split(argv[3], ',')) OP.push_back(atoi(s.c_str()));
     int NSTEAL = atoi(argv[4]);
+    std::vector<int> TISO, THISO = {0, 0, 0}; if (argc > 6) { for (auto& x : vh::split(argv[5], ',')) TISO.push_back(atoi(x.c_str())); int k = 1; for (auto& x : vh::split(argv[6], ',')) THISO[k++] = atoi(x.c_str()); }
+    tbb::task_arena helper(3, 3); helper.initialize();      // the logical threads sit in this arena only to own a real task dispatcher (get_task's epilogue advertises new work through it)
     vh::TraceOut TR; TR.open(argv[2]);
     tbb::task_arena ta(3, 3); ta.initialize();
     r1::arena* a = ta.my_arena.load();
     r1::arena_slot& slot = a->my_slots[1];
-    DummyTask tasks[16]; for (int i = 0; i < 16; i++) tasks[i].id = i;
+    DummyTask tasks[16]; for (int i = 0; i < 16; i++) { tasks[i].id = i; r1::task_accessor::isolation(tasks[i]) = (i >= 1 && i <= (int)TISO.size()) ? (r1::isolation_type)TISO[i - 1] : r1::no_isolation; }
     r1::execution_data_ext ed{};
     slot.spawn(tasks[15]); { d1::task* t = slot.get_task(ed, r1::no_isolation); if (t != &tasks[15]) { fprintf(stderr, "setup failed\n"); return 2; } }   // allocates the pool (64 cells)
     const void* vaddr[3] = {&slot.head, &slot.tail, &slot.task_pool};
@@ -33,12 +37,12 @@ int main(int argc, char** argv) {
         untrack_all(); for (auto p : vaddr) track(p); focus_only(true);
         TR.begin_exec();
         Sched S; S.stall_limit = 4000;
-        S.spawn(3, [&](int id) {
-            r1::execution_data_ext myed{};
+        S.spawn(3, [&](int id) { helper.execute([&] {
+            r1::execution_data_ext myed{}; myed.task_disp = r1::governor::get_thread_data()->my_task_dispatcher;
             if (id == 0) { for (int op : OP) { if (op > 0) { TR.emit("{\"e\":\"Spawn\",\"id\":%d}", op); slot.spawn(tasks[op]); }
-                                               else { d1::task* t = nullptr; if (slot.task_pool.load(std::memory_order_relaxed) != r1::EmptyTaskPool) t = slot.get_task(myed, r1::no_isolation); if (t) TR.emit("{\"e\":\"Got\",\"t\":0,\"id\":%d}", static_cast<DummyTask*>(t)->id); } } }
-            else { for (int n = 0; n < NSTEAL; n++) { d1::task* t = nullptr; if (slot.task_pool.load(std::memory_order_relaxed) != r1::EmptyTaskPool) t = slot.steal_task(*a, r1::no_isolation, 1); if (t) TR.emit("{\"e\":\"Got\",\"t\":%d,\"id\":%d}", id, static_cast<DummyTask*>(t)->id); } }
-        });
+                                               else { d1::task* t = nullptr; r1::isolation_type iso = (r1::isolation_type)(-op - 1); if (slot.task_pool.load(std::memory_order_relaxed) != r1::EmptyTaskPool) t = slot.get_task(myed, iso); if (t) TR.emit("{\"e\":\"Got\",\"t\":0,\"id\":%d}", static_cast<DummyTask*>(t)->id); } } }
+            else { for (int n = 0; n < NSTEAL; n++) { d1::task* t = nullptr; if (slot.task_pool.load(std::memory_order_relaxed) != r1::EmptyTaskPool) t = slot.steal_task(*a, (r1::isolation_type)THISO[id], 1); if (t) TR.emit("{\"e\":\"Got\",\"t\":%d,\"id\":%d}", id, static_cast<DummyTask*>(t)->id); } }
+        }); });
         ++paths; bool drifted = false;
         for (auto& tok : vh::parse_schedule(line)) {
             auto it = LAB.find(tok.label); if (it == LAB.end()) { ++skipped; continue; }       // spec-local step: no access in the code
